@@ -100,7 +100,8 @@ def make_pulse(rng, n, traceless, n_dt):
                 c_coeffs=rng.standard_normal((n_c, n_dt)), n_opers=np.array(nops), n_ids=ids,
                 n_coeffs=rng.uniform(0.3, 1.5, (n_n, n_dt)), dt=rng.uniform(0.2, 1.2, n_dt),
                 basis=('pauli',) if rng.random() < 0.75 else
-                ('derived', ('pauli',), 'permute', int(rng.integers(0, 2**31))),
+                ('derived', ('pauli',), str(rng.choice(['permute', 'swap2', 'swap_last'])),
+                 int(rng.integers(0, 2**31))),
                 features=[] if traceless else ['nontraceless_nop'])
 
 
